@@ -1,7 +1,7 @@
 """C13 — strike/dip/rake, axes, normal/slip: correspondence and oracle."""
 import math
 
-from common import Prop, bits, close, reply_floats, import_mtfit, main
+from common import Failure, Prop, bits, close, reply_floats, import_mtfit, main
 
 PI = math.pi
 
@@ -220,6 +220,40 @@ class C13(Prop):
             if self._sdr_close(impl['aux'], [s % (2 * PI), d, r]) and angdiff(impl['sdr_other'][0], s) > 1e-3:
                 out.append(('aux-identity', 'SDR_SDR returned the input plane instead of the auxiliary plane', None))
         return out[:3]
+
+    def extra(self, rng, tier):
+        """Whole-degree sweep of vertical and near-vertical planes through the array form of SDR_SDR: the auxiliary plane of a plane is a different plane,
+        orthogonal to it, and carries the same moment tensor (round-off of a vertical normal decides which candidate a comparison picks)."""
+        np, cv = self.np, self.cv
+        fails, cov = [], {'vertical_sweep_planes': 0}
+        step = 1
+        S, R = np.meshgrid(np.arange(0, 360, step, dtype=float), np.arange(-179, 180, step, dtype=float))
+        S, R = np.radians(S.flatten()), np.radians(R.flatten())
+        for dip in (math.pi / 2, math.pi / 2 - 1e-9, math.radians(89.0)):
+            D = np.full(S.shape, dip)
+            s2, d2, r2 = [np.asarray(x, dtype=float).flatten() for x in cv.SDR_SDR(S.copy(), D.copy(), R.copy())]
+            cov['vertical_sweep_planes'] += int(S.size)
+
+            def nrm(st, dp):
+                return np.array([-np.sin(dp) * np.sin(st), -np.sin(dp) * np.cos(st), np.cos(dp)])
+
+            def slp(st, dp, rk):
+                return np.array([np.cos(rk) * np.cos(st) + np.sin(rk) * np.cos(dp) * np.sin(st), -np.cos(rk) * np.sin(st) + np.sin(rk) * np.cos(dp) * np.cos(st),
+                                 np.sin(rk) * np.sin(dp)])
+            n1, n2, u1, u2 = nrm(S, D), nrm(s2, d2), slp(S, D, R), slp(s2, d2, r2)
+            # same tensor: n1 u1^T + u1 n1^T = n2 u2^T + u2 n2^T; the planes are orthogonal
+            m1 = np.einsum('ik,jk->ijk', n1, u1) + np.einsum('ik,jk->ijk', u1, n1)
+            m2 = np.einsum('ik,jk->ijk', n2, u2) + np.einsum('ik,jk->ijk', u2, n2)
+            dev = np.abs(m1 - m2).max(axis=(0, 1))
+            ortho = np.abs((n1 * n2).sum(0))
+            bad = np.where((dev > 1e-6) | (ortho > 1e-6))[0]
+            if len(bad):
+                j = int(bad[0])
+                fails.append(Failure('property', {'kind': 'vertical-sweep', 'strike_deg': float(np.degrees(S[j])), 'dip': float(dip), 'rake_deg': float(np.degrees(R[j]))},
+                                     'SDR_SDR (array form) of the plane strike %g deg, dip %r, rake %g deg returns (%r, %r, %r): normals have cosine %r, tensors differ by %r; '
+                                     '%d of %d planes of the sweep fail' % (np.degrees(S[j]), dip, np.degrees(R[j]), float(s2[j]), float(d2[j]), float(r2[j]), float(ortho[j]),
+                                                                             float(dev[j]), len(bad), S.size), key='vertical-sweep'))
+        return cov, fails[:3]
 
     def nontrivial(self, case, impl):
         return 0 < case['d'] < PI / 2
